@@ -26,38 +26,30 @@ theorem binVal_spec (o : BinOp) (a b : V) : binVal o a b = .ok (binSpec o a b) :
   | none =>
     cases b with
     | none =>
-      cases o <;> simp [binVal, binSpec, binAdder, binSubtractor, binMultiplier, binDivider, binMaximizer,
-        binMinimizer, PyF.add, PyF.sub, PyF.mul, PyF.div, PyF.max, PyF.min, PyF.gt, PyF.lt, PyF.eq, PyF.lit,
-        PyF.nan, PyF.isnan, bind, Except.bind, pure, Except.pure]
+      cases o <;> pyf_simp [binSpec]
     | some y =>
-      cases o <;> simp [binVal, binSpec, binAdder, binSubtractor, binMultiplier, binDivider, binMaximizer,
-        binMinimizer, PyF.add, PyF.sub, PyF.mul, PyF.div, PyF.max, PyF.min, PyF.gt, PyF.lt, PyF.eq, PyF.lit,
-        PyF.nan, PyF.isnan, bind, Except.bind, pure, Except.pure] <;>
+      cases o <;> pyf_simp [binSpec] <;>
         (by_cases h : y = 0
-         · subst h; simp
+         · subst h; pyf_simp
          · have h' : ¬ (0 : Rat) = y := fun e => h e.symm
-           simp [h, h'])
+           pyf_simp [h, h'])
   | some x =>
     cases b with
     | none =>
-      cases o <;> simp [binVal, binSpec, binAdder, binSubtractor, binMultiplier, binDivider, binMaximizer,
-        binMinimizer, PyF.add, PyF.sub, PyF.mul, PyF.div, PyF.max, PyF.min, PyF.gt, PyF.lt, PyF.eq, PyF.lit,
-        PyF.nan, PyF.isnan, bind, Except.bind, pure, Except.pure]
+      cases o <;> pyf_simp [binSpec]
     | some y =>
       cases hq : binQ o x y with
       | some q => simpa [binSpec, hq] using binVal_some o x y q hq
       | none =>
         cases o <;> simp [binQ] at hq
         subst hq
-        simp [binVal, binSpec, binQ, binDivider, PyF.div, PyF.eq, PyF.lit, PyF.nan, bind, Except.bind, pure,
-          Except.pure]
+        pyf_simp [binSpec, binQ]
 
 theorem unVal_spec (u : UnOp) (a : V) : unVal u a = .ok (unSpec u a) := by
   cases a with
   | some x => simpa [unSpec] using unVal_some u x
   | none =>
-    cases u <;> simp [unVal, unSpec, unConsumption, unProduction, PyF.max, PyF.neg, PyF.gt, PyF.lt, PyF.lit, pure,
-      Except.pure]
+    cases u <;> pyf_simp [unSpec]
 
 /-- The value of the tree under the strict semantics. -/
 def specEval (zf : Nat → Bool) (env : Env) : Ast → V
